@@ -359,3 +359,53 @@ Proof.
   revert w; induction ops as [|o r IH]; intros w H Hp; cbn; auto.
   split; auto. apply IH; [apply Hp; [left|]; auto|]. intros o' w' Ho'. apply Hp; right; auto.
 Qed.
+
+Lemma check_ok_some fk l m :
+  check_synced fk l = COk (Some m) ->
+  l <> [] /\ forall n c, In (n, c) l -> dget fk c = Some m /\ is_dirty m = false.
+Proof.
+  intros H. destruct (check_loop_some fk l None false m H) as [_ [B [_ D]]]. split; auto.
+Qed.
+Lemma check_ok_none fk l :
+  check_synced fk l = COk None -> forall n c, In (n, c) l -> dget fk c = None.
+Proof. intros H. exact (check_loop_none fk l false H). Qed.
+
+(* completeness of the OK verdicts, hence independence of the visiting order *)
+Lemma check_loop_complete_some fk m l : forall fid,
+  (forall n c, In (n, c) l -> dget fk c = Some m) -> is_dirty m = false ->
+  (fid = None \/ fid = Some m) -> (l <> [] \/ fid = Some m) ->
+  check_loop fk l fid false = COk (Some m).
+Proof.
+  induction l as [|[n c] t IH]; intros fid Hall Hd Hf Hne; cbn [check_loop].
+  - destruct Hne as [H|H]; [contradiction|rewrite H; reflexivity].
+  - rewrite (Hall n c (or_introl eq_refl)), Hd. cbv zeta.
+    assert (E : match fid with Some f => f | None => m end = m) by (destruct Hf as [Hf|Hf]; rewrite Hf; reflexivity).
+    rewrite E, beqb_refl. apply IH; auto. intros n' c' H. apply (Hall n' c'). right; auto.
+Qed.
+Lemma check_loop_complete_none fk l : forall ni,
+  (forall n c, In (n, c) l -> dget fk c = None) -> check_loop fk l None ni = COk None.
+Proof.
+  induction l as [|[n c] t IH]; intros ni Hall; cbn [check_loop]; auto.
+  rewrite (Hall n c (or_introl eq_refl)). apply IH. intros n' c' H. apply (Hall n' c'). right; auto.
+Qed.
+
+Lemma check_synced_perm fk l1 l2 x :
+  Permutation l1 l2 -> check_synced fk l1 = COk x -> check_synced fk l2 = COk x.
+Proof.
+  intros P H. destruct x as [m|].
+  - destruct (check_ok_some fk l1 m H) as [Hne Hall]. unfold check_synced.
+    assert (Hd : is_dirty m = false).
+    { destruct l1 as [|[n c] t]; [contradiction|]. apply (Hall n c). left; auto. }
+    apply check_loop_complete_some; auto.
+    + intros n c Hin. apply (Hall n c). eapply Permutation_in; [symmetry; exact P|exact Hin].
+    + left. intros E. subst l2. apply Permutation_sym, Permutation_nil in P. contradiction.
+  - unfold check_synced. apply check_loop_complete_none. intros n c Hin.
+    eapply (check_ok_none fk l1 H). eapply Permutation_in; [symmetry; exact P|exact Hin].
+Qed.
+
+(* the example history of props/C25.v: two flushes, a queued drop *)
+Module C25Ex.
+  Definition fk : bytes := [255].
+  Definition h : list hop :=
+    [HPut 1 [97] [1]; HPut 2 [98] [7]; HFlush [1] []; HPut 1 [97] [2]; HDrop 2; HFlush [2] []].
+End C25Ex.
